@@ -29,4 +29,23 @@ theorem foldl_double_cap_le (m : Nat) (l : List Nat) (base : Nat) (hb : base ≤
   | nil => simpa using hb
   | cons a l ih => simp only [List.foldl_cons]; exact ih _ (by omega)
 
+/-- the connecter's starting delay with a cap set (unfolds `Gen.connFirstDelayCapped`) -/
+theorem connInitial_some (m base : Nat) (hm : 0 < m) : connInitial (some m) base = min base m := by
+  simp [connInitial, Gen.connFirstDelayCapped, hm]
+
+theorem connInitial_le (m base : Nat) (hm : 0 < m) : connInitial (some m) base ≤ m := by
+  rw [connInitial_some m base hm]; omega
+
+/-- every delay of the connecter's schedule respects the cap -/
+theorem connDelay_le_cap (m base inh j : Nat) (hm : 0 < m) : connDelay (some m) base inh j ≤ m := by
+  induction j with
+  | zero =>
+    simp only [connDelay, connFastForward]
+    split
+    · exact foldl_double_cap_le m _ _ (connInitial_le m base hm)
+    · exact connInitial_le m base hm
+  | succ j ih =>
+    simp only [connDelay, connDouble]
+    split <;> omega
+
 end Rzmq
